@@ -169,7 +169,7 @@ def run_harness(exe, script_text, trace_path, timeout=120):
 # ----------------------------------------------------------------------------- TLC
 
 def java_cmd(heap="4g", parallel_gc=False):
-    return ["java", "-XX:+UseParallelGC" if parallel_gc else "-XX:+UseSerialGC", "-Xmx" + heap, "-cp", TLA_CP, "tlc2.TLC"]
+    return ["java", "-XX:+UseParallelGC" if parallel_gc else "-XX:+UseSerialGC", "-Xmx" + heap, "-Xss64m", "-cp", TLA_CP, "tlc2.TLC"]
 
 
 _TLC_TUPLE = re.compile(r"<<\s*\"(TRACE-ACCEPTED|TRACE-REJECTED|MONITOR-FINDINGS|COMP-[A-Z-]+)\"")
